@@ -12,7 +12,7 @@ func init() {
 		Run: runC10,
 		Decided: "nil-safe access to every protobuf reply/record pointer (whole program); the mis-keyed-record check dominates the record return of ProtocolMessenger.GetValue; " +
 			"reply peers are exposed only through the bounding converter PBPeersToPeerInfos, which bounds each record before converting and skips undecodable addresses; " +
-			"the closer-peer list of one response is cut to at most 2*bucketSize before it is iterated; both reply readers are size-bounded and select on a context and a timer/deadline with a buffered reply channel.",
+			"the closer-peer list of one response is cut to at most 2*bucketSize before it is iterated; both reply readers are size-bounded and select on a context and a timer/deadline with a buffered reply channel; an aborted value search processes no further response (its stop channel is closed once).",
 		NotDecided: "behaviour of protobuf-go unmarshalling on arbitrary bytes; transport behaviour.",
 	})
 }
@@ -48,6 +48,11 @@ func runC10(c *Ctx) {
 	// R5 bounded, escapable reads
 	c.Rule("R5")
 	c10R5(c)
+
+	// R6 no response sequence makes the value search close its stop channel twice (a panic):
+	// the abort verdict is kept and ends the processing loop before the next response (shared with C04.R2)
+	c.Rule("R6")
+	c04R2(c)
 }
 
 // c04R3: ProtocolMessenger.GetValue returns a non-nil record only behind bytes.Equal(key, rec.GetKey()).
